@@ -771,7 +771,9 @@ def _oracle(case):
     if not np.array_equal(x, x0):
         return f'x-modified: {cls} model on {case["chems"]}: caller\'s x {x0.tolist()} became {x.tolist()}'
     if ideal:
-        if not np.all(g == 1.): return 'ideal-fallback: not all ones'
+        if not np.all(g == 1.):
+            return (f'ideal-fallback: {cls} model on {case["chems"]} (at most one member with groups, so the ideal object) returns '
+                    f'{np.asarray(g).tolist()} instead of ones (a returned array that an earlier caller rewrote in place is handed out again?)')
         return reuse_buffer_check(G, cls, case['chems'], [x0, np.roll(x0, 1)], T)
     idx = [int(i) for i in G._index]
     # 2. no group data => exactly one
